@@ -267,6 +267,20 @@ def netlist_cases(draw, max_nodes):
         same = [j for j in regs if j != k and desc['nodes'][j]['w'] == desc['nodes'][k]['w']]
         if same and draw(st.booleans()):
             desc['nodes'][k]['args'][0] = 'n%d' % draw(st.sampled_from(same))
+    # a clock enable that changes from edge to edge while the inputs are held: a 1-bit register toggling (or
+    # following a slow counter bit) inside the design drives the enable of a gated group, so that clk(n) with n > 1
+    # crosses enabled and disabled edges within one call
+    if desc['groups'] and draw(st.booleans()):
+        nodes = desc['nodes']
+        r = len(nodes)
+        nodes.append({'op': 'Reg', 'args': ['n%d' % (r + 1)], 'w': 1, 'p': {'en': False, 'rst': False}, 'g': -1})
+        nodes.append({'op': 'Not', 'args': ['n%d' % r], 'w': 1, 'p': {}, 'g': -1})
+        desc['order'] = desc['order'] + [r, r + 1]
+        g = draw(st.integers(0, len(desc['groups']) - 1))
+        desc['groups'][g]['enable'] = 'n%d' % r
+        if regs:
+            for k in draw(st.lists(st.sampled_from(regs), min_size=1, max_size=2, unique=True)):
+                desc['nodes'][k]['g'] = g
     steps = draw(st.lists(st.tuples(st.tuples(*[value_st(i['w']) for i in desc['inputs']]).map(list),
                                     st.sampled_from([1, 1, 1, 2, 3, 5])).map(list), min_size=2, max_size=8))
     return {'kind': 'netlist', 'desc': desc, 'schedule': steps, 'perm_seeds': draw(st.lists(st.integers(0, 10 ** 6), min_size=1, max_size=2))}
